@@ -4,7 +4,8 @@
 
    Addresses.  u1, u2: honest users; att: the attacker's key; vault: the honest realm's address,
    vdep: its storage-deposit address; mal: the attacker realm's address, mdep: its storage-deposit
-   address; coll: the fee collector.
+   address; rtr / rdep: a third-party "router" realm the vault calls, and its storage-deposit address
+   (written by the attacker, like mal); coll: the fee collector.
 
    A transaction is summarised by
      signer                      the address whose key signed it
@@ -18,12 +19,16 @@
                                  its LIVE realm value to caller-supplied code in this transaction
      grants                      the vault has done the latter in an earlier transaction
                                  (chain/banker: "minting a banker is an irrevocable grant")
+     ogrant                      the vault handed an OriginSend banker of its own to third-party code in this
+                                 transaction.  Inside THIS transaction that banker is bounded by the coins sent
+                                 along (a running total over all its sends), so it never justifies a net decrease
+                                 of the vault; the struct persists, so for LATER transactions it counts as a grant
      issues                      the vault's own code minted a RealmIssue banker in this transaction
-     storV, storM                change of the vault's / attacker realm's storage in bytes         *)
+     storV, storM, storR         change of the vault's / attacker realm's / router's storage in bytes         *)
 EXTENDS Integers
 
 Honest == {"u1", "u2", "vault", "vdep"}      \* addresses the attacker has no authority over
-AttackerOwned == {"att", "mal", "mdep"}
+AttackerOwned == {"att", "mal", "mdep", "rtr", "rdep"}
 
 \* May the ugnot balance of X decrease by dec > 0 in this transaction?
 MayDecrease(X, dec, t, grants) ==
@@ -33,7 +38,8 @@ MayDecrease(X, dec, t, grants) ==
      /\ (t.spends > 0 \/ t.deleg > 0 \/ "vault" \in grants)
   \/ /\ X = "vdep" /\ t.storV < 0                     \* storage the realm used was released
   \/ /\ X = "mdep" /\ t.storM < 0
-  \/ X \in {"mal", "coll"}                            \* the attacker's own realm; the collector is not a victim
+  \/ /\ X = "rdep" /\ t.storR < 0
+  \/ X \in {"mal", "rtr", "coll"}                            \* the attacker's own realm; the collector is not a victim
 
 \* A failed transaction keeps at most the fee; nobody else is touched.
 FailedTxOK(pre, post, t) ==
@@ -48,7 +54,7 @@ DecreaseOnlyWithAuthority(pre, post, t, grants) ==
 \* the realm-issued denomination: balances of it decrease only when the holder signed a transfer
 \* of it or the issuing realm's own code used its RealmIssue authority; supply changes only then
 RealmDenomAuthority(preV, postV, t, grants) ==
-  LET Sum(f) == f["u1"] + f["u2"] + f["att"] + f["vault"] + f["vdep"] + f["mal"] + f["mdep"] + f["coll"]
+  LET Sum(f) == f["u1"] + f["u2"] + f["att"] + f["vault"] + f["vdep"] + f["mal"] + f["mdep"] + f["rtr"] + f["rdep"] + f["coll"]
       IssuerActed == t.issues > 0 \/ t.deleg > 0 \/ "vault" \in grants
   IN /\ \A X \in DOMAIN preV : postV[X] < preV[X] =>
             \/ IssuerActed
